@@ -173,6 +173,25 @@ def _linen_part(fails):
         fails.append(dict(inputs=dict(api='linen', check='nn.jit block called 3 times per apply, apply repeated 3 times', separator_fix=flag),
                           observed='the same apply with the same seed gives other random draws on a later execution (traced vs cached)', violated='deterministic'))
         return cases
+      # a helper method lifted by nn.remat (fresh inner scope per call) called twice: the second call continues the counts
+      cases += 1
+
+      class R(nn.Module):
+        def draw(self, x):
+          return x + jax.random.normal(self.make_rng('dropout'), x.shape)
+
+        @nn.compact
+        def __call__(self, x):
+          a = nn.remat(R.draw)(self, x) if self.lifted else self.draw(x)
+          b = nn.remat(R.draw)(self, a) if self.lifted else self.draw(a)
+          return a, b, self.draw(b)
+        lifted: bool = False
+      want_r = R(lifted=False).apply({}, jnp.zeros((3,)), rngs={'dropout': jax.random.key(1)})
+      got_r = R(lifted=True).apply({}, jnp.zeros((3,)), rngs={'dropout': jax.random.key(1)})
+      if not all(np.allclose(np.asarray(p), np.asarray(q)) for p, q in zip(want_r, got_r)):
+        fails.append(dict(inputs=dict(api='linen', check='method lifted by nn.remat called twice, then a plain draw', separator_fix=flag),
+                          observed='draws inside / after the lifted calls differ from the plain code (counts not carried across the lifted scope)', violated='no-key-reuse'))
+        return cases
       # parameter initialisers: keys are position-addressed and not shared
       cases += 1
 
